@@ -16,9 +16,9 @@ EXPLANATION = (
 
 
 def run(ctx: Ctx) -> None:
-    R.rule_own_so(ctx)
-    R.rule_gates(ctx)
-    C.rule_coh_src(ctx)
-    C.rule_aff_flags(ctx)
-    C.rule_exh_mem(ctx)
-    C.rule_excl_hook(ctx)
+    ctx.do(R.rule_own_so)
+    ctx.do(R.rule_gates)
+    ctx.do(C.rule_coh_src)
+    ctx.do(C.rule_aff_flags)
+    ctx.do(C.rule_exh_mem)
+    ctx.do(C.rule_excl_hook)
